@@ -138,6 +138,26 @@ func (m *metadata) reserveRootSeqNo(version uint64, rootType uint8) (uint16, err
 	return seqNo, nil
 }
 
+// releaseRootSeqNos releases the given reserved root sequence numbers for the given version in
+// case they were the last ones reserved, together with any pending roots recorded under them.
+func (m *metadata) releaseRootSeqNos(version uint64, seqs map[uint8]uint16) {
+	m.Lock()
+	defer m.Unlock()
+
+	for rootType, seqNo := range seqs {
+		if next, ok := m.value.NextPendingRootSeq[version][rootType]; !ok || next != seqNo+1 {
+			continue
+		}
+		m.value.NextPendingRootSeq[version][rootType] = seqNo
+
+		for rootHash, rootSeqNo := range m.value.PendingRootSeqs[version] {
+			if uint8(rootHash.Type()) == rootType && rootSeqNo == seqNo {
+				delete(m.value.PendingRootSeqs[version], rootHash)
+			}
+		}
+	}
+}
+
 func (m *metadata) setPendingRootSeqNo(version uint64, rootHash api.TypedHash, seqNo uint16) error {
 	m.Lock()
 	defer m.Unlock()
